@@ -34,8 +34,8 @@ Definition footprint (w1 : world) (a : addr) (w2 : world) : Prop :=
 (* ---- the executable part: classification of the writes that reach the parsed tree --------
    Observed by the check as (path of the class owning the changed object, kind). *)
 Inductive wkind :=
-| WImportMemo      (* ast.py:672 self.imports[name] = ... (unqualified-import memo in _find_class) *)
-| WConstSym        (* a constant Symbol returned uncopied by _find_constant_symbol (ast.py:722-755):
+| WImportMemo      (* ast.py:681 self.imports[name] = ... (unqualified-import memo in _find_class) *)
+| WConstSym        (* a constant Symbol returned uncopied by _find_constant_symbol (ast.py:725-757):
                       name reset from the dict key (tree.py flatten_symbols), own modification applied
                       and cleared (tree.py:838-880 modify_symbol) *)
 | WArgHook         (* ClassModificationArgument.__deepcopy__ leaves `self.__deepcopy__` bound to self
